@@ -248,9 +248,8 @@ func (m *Machine) binop(op token.Token, x, y Value, t types.Type) Value {
 					}
 				}
 				// order of symbolic strings: declaration order abstraction
-				m.Assume("symbolic names are taken in their declaration order where the code sorts them (sort order of atoms abstracted)")
-				ch := m.Decide("strord:"+strKey(a)+"<"+strKey(b), 2, "order of symbolic strings")
-				lt := ch == 0
+				m.Assume("where the code orders symbolic names, a fixed canonical order is used (the emitted declaration order is abstracted; Go declarations are order-independent)")
+				lt := strKey(a) < strKey(b)
 				switch op {
 				case token.LSS, token.LEQ:
 					return lt
